@@ -205,6 +205,7 @@ def run(ctx):
     utf8_rule(ctx)
     index_rule(ctx)
     newtype_rule(ctx)
+    seqend_rule(ctx)
     lengths_rule(ctx)
     bounds_rule(ctx)
     blocks_rule(ctx)
@@ -392,6 +393,51 @@ def utf8_rule(ctx):
         ok = any(call_matches(c, ['str::converts::from_utf8']) for c in o.calls) and not any('unchecked' in cname(c) for c in o.calls) \
             and not any('unchecked' in cname(t_) or 'transmute' in cname(t_) for bb_, t_ in b.calls())
         ctx.ob('UTF8', 'parse_str', ok, short_loc(b.span), 'parse_str returns from_utf8(..).map_err(..): %s' % ok)
+
+
+def seqend_rule(ctx):
+    """An Avro array ends with a zero-count block.  A visitor of a fixed-length type (tuple, [T; N], tuple struct) stops
+    asking for elements once it has enough, so whoever hands the array to `visit_seq` has to read the array to its end
+    afterwards (consume the end marker, refuse extra elements) - otherwise the rest of the array is decoded as whatever
+    follows it and a valid encoding yields a different value.  Every `visit_seq` over the array access: the access is
+    lent (`&mut`), and on the Ok edge every return passes through a call that reads the next block header."""
+    f = ctx.f
+    n = 0
+
+    def reaches_block_header(cb, depth=0):
+        for bb, t in cb.calls():
+            c = strip_generics(cname(t))
+            if short_fn(c) == 'read_block_len':
+                return True
+            nb = f.bodies.get(cname(t))
+            if nb is not None and depth < 2 and (nb.id.startswith('de::') or nb.id.startswith('<de::')) and nb is not cb and reaches_block_header(nb, depth + 1):
+                return True
+        return False
+    for b in f.body_list:
+        if not (b.id.startswith('de::') or b.id.startswith('<de::')):
+            continue
+        for bb, t in b.calls():
+            if b.is_cleanup(bb) or (t.get('callee') or '') != 'serde_core::de::Visitor::visit_seq':
+                continue
+            aty = (t.get('arg_tys') or ['', ''])[1] if len(t.get('arg_tys') or []) > 1 else ''
+            if 'ArraySeqAccess' not in aty:
+                continue
+            n += 1
+            ctx.touched(b, 1)
+            lent = aty.startswith('&mut ')
+            ended = False
+            te = try_edges(b, bb)
+            if lent and te is not None and te[0] is not None:
+                enders = [x for x, t2 in b.calls() if not b.is_cleanup(x) and f.bodies.get(cname(t2)) is not None and reaches_block_header(f.bodies[cname(t2)]) and
+                          any('BlockReader' in ty for ty in t2.get('arg_tys', [])[:1])]
+                reach = b.reachable_from(te[0])
+                # (in a body with spliced helpers the Ok value is built for the helper's own return place: fall back to
+                # "every way out")
+                oks = ok_return_blocks(b, reach) or [x for x in b.exits() if x in reach and not b.is_cleanup(x)]
+                ended = bool(enders) and bool(oks) and must_pass(b, te[0], oks, enders)
+            ctx.ob('SEQEND', fn_label(b), lent and ended, short_loc(t.get('span')),
+                   'array access lent to the visitor (not moved into it): %s; the array is read to its end marker after the visitor returns, on every Ok path: %s' % (lent, ended))
+    ctx.floor('SEQEND', 'visit_seq over array accesses', n, 1)
 
 
 def newtype_rule(ctx):
@@ -795,9 +841,37 @@ def blocks_rule(ctx):
             if 'assign' in s and s['assign']['l'] == 0 and s['rv']['k'] == 'agg' and const_int(s['rv']['ops'][0]) == 0:
                 fal.append(bb)
     ok = bool(fal)
+
+    def in_none_arm(bb):
+        return any('None' in names and any('read_block_len' in cname(c) for c in oo.calls) for names, adt, oo, d_, oth in option_guards(hm, bb))
+    # ... or where a flag says that this very thing already happened: a bool field of the block reader that is set
+    # (to true) only in that None arm, anywhere in de::
+    def end_flag_fields():
+        flds = {}
+        for b2 in f.body_list:
+            if not (b2.id.startswith('de::') or b2.id.startswith('<de::')):
+                continue
+            for bb2 in sorted(b2.live_blocks()):
+                if b2.is_cleanup(bb2):
+                    continue
+                for s2 in b2.stmts(bb2):
+                    if 'assign' in s2 and s2['assign'].get('p') and s2['rv']['k'] == 'use' and const_int(s2['rv']['op']) == 1:
+                        fs = [e.get('f') for e in s2['assign']['p'] if isinstance(e, dict) and e.get('of', '').endswith('BlockReader')]
+                        for fl in fs:
+                            flds.setdefault(fl, []).append(b2 is hm and in_none_arm(bb2))
+        return {fl for fl, v in flds.items() if v and all(v)}
+    flags = end_flag_fields()
     for bb in fal:
-        og = option_guards(hm, bb)
-        if not any('None' in names and any('read_block_len' in cname(c) for c in oo.calls) for names, adt, oo, d_, oth in og):
+        if in_none_arm(bb):
+            continue
+        by_flag = False
+        for d, si, taken in dominating_switches(hm, bb):
+            if si.get('kind') == 'enum':
+                continue
+            so = origin(hm, si['op'])
+            if so.fields and so.fields <= flags and so.params() == {1} and taken[0] == 'not' and 0 in taken[1]:
+                by_flag = True
+        if not by_flag:
             ok = False
     ctx.ob('BLOCKS', 'has_more/ends-only-on-zero-count', ok, short_loc(hm.span), 'Ok(false) only in the None arm of read_block_len: %s' % ok)
     # the stored remaining count is l - 1 where l is the header's count
